@@ -11,6 +11,7 @@ package main
 //  c12-index  pool_index of bufferpool.go against the model's (leg 1202) on random (needed, max) pairs.
 
 import (
+	"sync"
 	"flag"
 	"fmt"
 	"os"
@@ -342,7 +343,12 @@ type c12Shared struct {
 	events  []regexp2.VerifScanStart
 }
 
+// the rune/byte buffer pools are process-wide and leg c12-hist observes them: the C12 legs take turns
+var c12PoolMu sync.Mutex
+
 func legC12Hist(c *Ctx) {
+	c12PoolMu.Lock()
+	defer c12PoolMu.Unlock()
 	c.Rule("histories of 8..40 (quick) / 8..400 (thorough) calls over 7 shared Regexps (balancing groups, bool-only-eligible captures, stack limit 65, catastrophic+8ms timeout, RightToLeft, named groups with a 4-entry cache and 4K buffer caps, classes without ASCII bitmaps); inputs of 0..60, ~1K, ~4K, ~16K and >16K bytes crossing the rune-buffer classes, some non-ASCII; 40 replacement strings; ops: MatchString, MatchRunes, FindStringMatch[StartingAt], FindRunesMatch, FindNextMatch, FindAllStringIndex, FindAllRunesIndex, Replace, ReplaceFunc, Split; pooled buffers are poisoned between steps; non-trivial = a step whose runner or buffer was recycled (distinct by history,step)")
 	regexp2.SetTimeoutCheckPeriod(time.Millisecond)
 	specs := c12Specs()
@@ -976,6 +982,8 @@ func c12SafeScan(re *regexp2.Regexp, useQuick bool, runes []rune, start, prevlen
 // ---------- pool_index ----------
 
 func legC12Index(c *Ctx) {
+	c12PoolMu.Lock()
+	defer c12PoolMu.Unlock()
 	c.Rule("poolIndex(needed, maxSize) of both global pools for needed around every class size, maxSize in {-1, 0, every class size and its neighbours, random}; non-trivial = a class is selected (distinct by (pool, needed, max))")
 	n := c.N(4000, 100000)
 	for pool := 0; pool < 2; pool++ {
